@@ -45,4 +45,42 @@ def scheduleOf : List TEv → List Act
   | .releasing g :: rest => releaseSeq g ++ scheduleOf rest
   | .failed _ :: rest => scheduleOf rest
 
+/-! ### failed acquisitions in the replay (audit repair, engineer mux)
+
+`scheduleOf` drops `failed` events; that is sound because `failSeq` is state-neutral wherever it is enabled
+(`Proofs/ClusterMutexFail.lean`: `failSeq_neutral`). What remains to be checked is that it **was** enabled: the
+failed `Lock` of goroutine `g` ran somewhere between `g`'s previous event and its `failed` stamp, and at that
+moment `g`'s mutex object was not locked by another goroutine of the member. The stamps `acquired` (after
+`Lock` returned) and `releasing` (before `Unlock` is called) make the model hold an object for a *sub*-interval
+of the real holding time, so whenever the object really was free the replay has a position where it is free too.
+`failedReplayOK` checks exactly that: `seen` = goroutines for which, since their last event, some replay position
+had their object's local mutex free. -/
+
+def evActs : TEv → List Act
+  | .acquired g => acquireSeq g
+  | .releasing g => releaseSeq g
+  | .failed _ => []
+
+def evG : TEv → Nat
+  | .acquired g => g
+  | .releasing g => g
+  | .failed g => g
+
+def failedReplayOK (c : Cfg) (gs : List Nat) : State → List Nat → List TEv → Bool
+  | _, _, [] => true
+  | s, seen, e :: rest =>
+    let seen' := seen ++ gs.filter (fun g => !s.held (c.obj g) && !seen.contains g)
+    match e with
+    | .failed g => seen'.contains g && failedReplayOK c gs s (seen'.filter (· != g)) rest
+    | _ =>
+      match run c s (evActs e) with
+      | none => false
+      | some s' => failedReplayOK c gs s' (seen'.filter (· != evG e)) rest
+
+/-- goroutines with a failed attempt -/
+def failingGs : List TEv → List Nat
+  | [] => []
+  | .failed g :: r => if (failingGs r).contains g then failingGs r else g :: failingGs r
+  | _ :: r => failingGs r
+
 end EgVerif.ClusterMutex
